@@ -3060,6 +3060,13 @@ impl<'a> QueryServerWriteTransaction<'a> {
         // Point of no return - everything has been validated and reloaded.
         //
         // = Lets commit =
+        //
+        // The database goes first. If its commit fails, none of the server-wide state that
+        // readers use (schema, domain info, configuration, key providers, access controls) may
+        // have changed: only a transaction whose commit reports success becomes visible. The
+        // in-memory commits below can not fail.
+        be_txn.commit()?;
+
         schema
             .commit()
             .map(|_| d_info.commit())
@@ -3069,7 +3076,6 @@ impl<'a> QueryServerWriteTransaction<'a> {
             .map(|_| dyngroup_cache.commit())
             .and_then(|_| key_providers.commit())
             .and_then(|_| accesscontrols.commit())
-            .and_then(|_| be_txn.commit())
     }
 
     pub(crate) fn get_txn_cid(&self) -> &Cid {
